@@ -10,9 +10,21 @@ use ark_poly::{
     univariate::{DenseOrSparsePolynomial, DensePolynomial, SparsePolynomial},
     DenseUVPolynomial, EvaluationDomain, Evaluations, Polynomial, Radix2EvaluationDomain,
 };
+use ark_serialize::{CanonicalDeserialize, CanonicalSerialize, Compress, Validate};
 use arkharness::util::*;
 use arkharness::zoo::{FDT13, FDT5, FDT7};
 use num_bigint::BigUint;
+
+/// `rand::RngCore` over the harness' SplitMix64 (for `DenseUVPolynomial::rand`): seeded, reproducible
+struct SeedRng(Rng);
+impl ark_std::rand::RngCore for SeedRng {
+    fn next_u32(&mut self) -> u32 { self.0.next() as u32 }
+    fn next_u64(&mut self) -> u64 { self.0.next() }
+    fn fill_bytes(&mut self, dest: &mut [u8]) {
+        for c in dest.chunks_mut(8) { let w = self.0.next().to_le_bytes(); let l = c.len(); c.copy_from_slice(&w[..l]); }
+    }
+    fn try_fill_bytes(&mut self, dest: &mut [u8]) -> Result<(), ark_std::rand::Error> { self.fill_bytes(dest); Ok(()) }
+}
 
 type Dom<F> = Radix2EvaluationDomain<F>;
 type Terms<F> = Vec<(usize, F)>;
@@ -156,6 +168,213 @@ fn dom_interp<F: PrimeField>(c: &mut Cx, ev: &[F], d: &Dom<F>) {
     c.emit("interpr", &args, guarded(|| shd(&Evaluations::from_vec_and_domain(ev.to_vec(), *d).interpolate_by_ref().coeffs)));
 }
 
+
+// ------------------------------------------------------------------ additions: receiver variants of `impl_op!`,
+// `DenseOrSparsePolynomial` conversions / queries for the four `From` forms, owned-Cow division, `rand`,
+// sparse evaluation with huge exponents
+/// owned ⊕ &ref (`…vr`), &ref ⊕ owned (`…rv`), owned ⊕ owned (`…v`) for +, −, ×, ÷
+fn dd_recv<F: PrimeField + ark_ff::FftField>(c: &mut Cx, a: &[F], b: &[F]) {
+    let args = format!("{} {}", shd(a), shd(b));
+    let (pa, pb) = (dp(a), dp(b));
+    c.emit("daddvr", &args, guarded(|| shd(&(pa.clone() + &pb).coeffs)));
+    c.emit("daddrv", &args, guarded(|| shd(&(&pa + pb.clone()).coeffs)));
+    c.emit("dsubvr", &args, guarded(|| shd(&(pa.clone() - &pb).coeffs)));
+    c.emit("dsubrv", &args, guarded(|| shd(&(&pa - pb.clone()).coeffs)));
+    c.emit("dmulv", &args, guarded(|| shd(&(pa.clone() * pb.clone()).coeffs)));
+    c.emit("dmulvr", &args, guarded(|| shd(&(pa.clone() * &pb).coeffs)));
+    c.emit("dmulrv", &args, guarded(|| shd(&(&pa * pb.clone()).coeffs)));
+    c.emit("ddivv", &args, guarded(|| shd(&(pa.clone() / pb.clone()).coeffs)));
+    c.emit("ddivvr", &args, guarded(|| shd(&(pa.clone() / &pb).coeffs)));
+    c.emit("ddivrv", &args, guarded(|| shd(&(&pa / pb.clone()).coeffs)));
+    c.emit("ddivo", &args, guarded(|| qr(DenseOrSparsePolynomial::from(pa.clone()).divide_with_q_and_r(&DenseOrSparsePolynomial::from(pb.clone())))));
+}
+fn ds_divo<F: PrimeField>(c: &mut Cx, a: &[F], s: &SparsePolynomial<F>) {
+    let pa = dp(a);
+    c.emit("dsdivo", &format!("{} {}", shd(a), shs(&s.to_vec())),
+        guarded(|| qr(DenseOrSparsePolynomial::from(pa.clone()).divide_with_q_and_r(&DenseOrSparsePolynomial::from(s.clone())))));
+    c.emit("sddivo", &format!("{} {}", shs(&s.to_vec()), shd(a)),
+        guarded(|| qr(DenseOrSparsePolynomial::from(s.clone()).divide_with_q_and_r(&DenseOrSparsePolynomial::from(pa.clone())))));
+}
+fn ss_divo<F: PrimeField>(c: &mut Cx, s: &SparsePolynomial<F>, t: &SparsePolynomial<F>) {
+    c.emit("ssdivo", &format!("{} {}", shs(&s.to_vec()), shs(&t.to_vec())),
+        guarded(|| qr(DenseOrSparsePolynomial::from(s.clone()).divide_with_q_and_r(&DenseOrSparsePolynomial::from(t.clone())))));
+}
+fn hexb(b: &[u8]) -> String {
+    if b.is_empty() { return "_".into(); }
+    b.iter().map(|x| format!("{:02x}", x)).collect()
+}
+/// derived (de)serialization: `<bytes> <serialized_size> <deserialized value as stored>`
+fn d_ser<F: PrimeField>(c: &mut Cx, a: &[F], compressed: bool) {
+    let pa = dp(a);
+    let mode = if compressed { Compress::Yes } else { Compress::No };
+    c.emit("dser", &shd(a), guarded(|| {
+        let mut bytes = Vec::new();
+        pa.serialize_with_mode(&mut bytes, mode).unwrap();
+        let back = DensePolynomial::<F>::deserialize_with_mode(&bytes[..], mode, Validate::Yes);
+        format!("{} {:x} {}", hexb(&bytes), pa.serialized_size(mode), match back { Ok(x) => shd(&x.coeffs), Err(_) => "err".into() })
+    }));
+}
+fn s_ser<F: PrimeField>(c: &mut Cx, s: &SparsePolynomial<F>, compressed: bool) {
+    let mode = if compressed { Compress::Yes } else { Compress::No };
+    c.emit("sser", &shs(&s.to_vec()), guarded(|| {
+        let mut bytes = Vec::new();
+        s.serialize_with_mode(&mut bytes, mode).unwrap();
+        let back = SparsePolynomial::<F>::deserialize_with_mode(&bytes[..], mode, Validate::Yes);
+        format!("{} {:x} {}", hexb(&bytes), s.serialized_size(mode), match back { Ok(x) => shs(&x.to_vec()), Err(_) => "err".into() })
+    }));
+}
+fn try_sparse<F: PrimeField>(x: DenseOrSparsePolynomial<F>) -> String {
+    let r: Result<SparsePolynomial<F>, ()> = x.try_into();
+    match r { Ok(s) => shs(&s.to_vec()), Err(()) => "err".into() }
+}
+/// `DenseOrSparsePolynomial` from an owned / borrowed dense polynomial
+fn dos_d<F: PrimeField>(c: &mut Cx, a: &[F]) {
+    let pa = dp(a);
+    let s = shd(a);
+    c.emit("dosz", &format!("do {}", s), guarded(|| (if DenseOrSparsePolynomial::from(pa.clone()).is_zero() { "1" } else { "0" }).to_string()));
+    c.emit("dosz", &format!("db {}", s), guarded(|| (if DenseOrSparsePolynomial::from(&pa).is_zero() { "1" } else { "0" }).to_string()));
+    c.emit("dosdeg", &format!("do {}", s), guarded(|| format!("{:x}", DenseOrSparsePolynomial::from(pa.clone()).degree())));
+    c.emit("dosdeg", &format!("db {}", s), guarded(|| format!("{:x}", DenseOrSparsePolynomial::from(&pa).degree())));
+    c.emit("dos2d", &format!("do {}", s), guarded(|| shd(&DensePolynomial::from(DenseOrSparsePolynomial::from(pa.clone())).coeffs)));
+    c.emit("dos2d", &format!("db {}", s), guarded(|| { let d: DensePolynomial<F> = DenseOrSparsePolynomial::from(&pa).into(); shd(&d.coeffs) }));
+    c.emit("dos2s", &format!("do {}", s), guarded(|| try_sparse(DenseOrSparsePolynomial::from(pa.clone()))));
+    c.emit("dos2s", &format!("db {}", s), guarded(|| try_sparse(DenseOrSparsePolynomial::from(&pa))));
+}
+/// `DenseOrSparsePolynomial` from an owned / borrowed sparse polynomial
+fn dos_s<F: PrimeField>(c: &mut Cx, sp_: &SparsePolynomial<F>) {
+    let s = shs(&sp_.to_vec());
+    c.emit("dosz", &format!("so {}", s), guarded(|| (if DenseOrSparsePolynomial::from(sp_.clone()).is_zero() { "1" } else { "0" }).to_string()));
+    c.emit("dosz", &format!("sb {}", s), guarded(|| (if DenseOrSparsePolynomial::from(sp_).is_zero() { "1" } else { "0" }).to_string()));
+    c.emit("dosdeg", &format!("so {}", s), guarded(|| format!("{:x}", DenseOrSparsePolynomial::from(sp_.clone()).degree())));
+    c.emit("dosdeg", &format!("sb {}", s), guarded(|| format!("{:x}", DenseOrSparsePolynomial::from(sp_).degree())));
+    c.emit("dos2d", &format!("so {}", s), guarded(|| shd(&DensePolynomial::from(DenseOrSparsePolynomial::from(sp_.clone())).coeffs)));
+    c.emit("dos2d", &format!("sb {}", s), guarded(|| { let d: DensePolynomial<F> = DenseOrSparsePolynomial::from(sp_).into(); shd(&d.coeffs) }));
+    c.emit("dos2s", &format!("so {}", s), guarded(|| try_sparse(DenseOrSparsePolynomial::from(sp_.clone()))));
+    c.emit("dos2s", &format!("sb {}", s), guarded(|| try_sparse(DenseOrSparsePolynomial::from(sp_))));
+}
+/// `DenseOrSparsePolynomial::evaluate_over_domain(impl Into<Self>, domain)` for the four `Into` forms
+fn dos_dom_d<F: PrimeField + ark_ff::FftField>(c: &mut Cx, a: &[F], d: &Dom<F>) {
+    let pa = dp(a);
+    c.emit("dosevaldom", &format!("do {} {}", shd(a), shdom(d)), guarded(|| shd(&DenseOrSparsePolynomial::evaluate_over_domain(pa.clone(), *d).evals)));
+    c.emit("dosevaldom", &format!("db {} {}", shd(a), shdom(d)), guarded(|| shd(&DenseOrSparsePolynomial::evaluate_over_domain(&pa, *d).evals)));
+}
+fn dos_dom_s<F: PrimeField + ark_ff::FftField>(c: &mut Cx, s: &SparsePolynomial<F>, d: &Dom<F>) {
+    c.emit("dosevaldom", &format!("so {} {}", shs(&s.to_vec()), shdom(d)), guarded(|| shd(&DenseOrSparsePolynomial::evaluate_over_domain(s.clone(), *d).evals)));
+    c.emit("dosevaldom", &format!("sb {} {}", shs(&s.to_vec()), shdom(d)), guarded(|| shd(&DenseOrSparsePolynomial::evaluate_over_domain(s, *d).evals)));
+}
+/// `DenseUVPolynomial::rand(d, rng)` with a seeded RNG: prints `coeffs() degree()`
+fn d_rand<F: PrimeField>(c: &mut Cx, d: usize, seed: u64) {
+    c.emit("drand", &format!("{:x} {:x}", d, seed), guarded(|| {
+        let p = DensePolynomial::<F>::rand(d, &mut SeedRng(Rng::new(seed)));
+        format!("{} {:x}", shd(p.coeffs()), p.degree())
+    }));
+}
+fn s_evalx<F: PrimeField>(c: &mut Cx, s: &SparsePolynomial<F>, x: &F) {
+    c.emit("sevalx", &format!("{} {}", shs(&s.to_vec()), hx(x)), guarded(|| hx(&s.evaluate(x))));
+}
+fn s_evaldomx<F: PrimeField + ark_ff::FftField>(c: &mut Cx, s: &SparsePolynomial<F>, d: &Dom<F>, owned: bool) {
+    c.emit("sevaldomx", &format!("{} {}", shs(&s.to_vec()), shdom(d)),
+        guarded(|| shd(&(if owned { s.clone().evaluate_over_domain(*d) } else { s.evaluate_over_domain_by_ref(*d) }).evals)));
+}
+/// canonical sparse polynomials with exponents up to `usize::MAX`
+fn huge_sparse<F: PrimeField>(rng: &mut Rng, nzf: &mut dyn FnMut(&mut Rng) -> F, count: usize) -> Vec<SparsePolynomial<F>> {
+    let degs: Vec<usize> = vec![0, 1, 2, 63, 64, (1 << 16) + 1, u32::MAX as usize, 1 << 32, (1 << 32) + 1, (1 << 62) + 5, (1usize << 63) - 1, 1 << 63, (1 << 63) + 1, usize::MAX - 1, usize::MAX];
+    let mut v: Vec<SparsePolynomial<F>> = Vec::new();
+    // single huge terms, the two largest exponents together, constant + top
+    for &d in &[1usize << 32, (1usize << 63) - 1, 1 << 63, usize::MAX - 1, usize::MAX] { v.push(sp(&[(d, nzf(rng))]).unwrap()); }
+    v.push(sp(&[(usize::MAX - 1, nzf(rng)), (usize::MAX, nzf(rng))]).unwrap());
+    v.push(sp(&[(0, nzf(rng)), (usize::MAX, nzf(rng))]).unwrap());
+    v.push(sp(&[(usize::MAX, nzf(rng)), (1, nzf(rng)), (1 << 63, nzf(rng))]).unwrap());
+    while v.len() < count {
+        let k = 1 + rng.below(4) as usize;
+        let mut raw: Terms<F> = Vec::new();
+        for _ in 0..k {
+            let d = if rng.below(3) == 0 { rng.next() as usize } else { degs[rng.below(degs.len() as u64) as usize] };
+            if !raw.iter().any(|(e, _)| *e == d) { raw.push((d, nzf(rng))); }
+        }
+        v.push(sp(&raw).unwrap());
+    }
+    v
+}
+
+fn toy_extra<F: PrimeField + ark_ff::FftField>(rng: &mut Rng, c: &mut Cx, el: &[F], vecs: &[Vec<F>], sps: &[SparsePolynomial<F>], doms: &[Dom<F>], thorough: bool) {
+    let p = el.len() as u64;
+    let pairs_cap = if thorough { 2000 } else { 110 };
+    // conversions / queries: every stored vector of length ≤ 3 (leading zeros included), every sparse polynomial
+    let dcap = if thorough { usize::MAX } else { 160 };
+    for v in vecs.iter().filter(|v| v.len() <= 3).take(dcap) { dos_d(c, v); }
+    let scap = if thorough { usize::MAX } else { 130 };
+    for s in sps.iter().take(scap) { dos_s(c, s); }
+    for (i, v) in vecs.iter().filter(|v| v.len() <= 3).enumerate().take(dcap) { if thorough || i % 4 == 0 { d_ser(c, v, i % 8 == 0); } }
+    for (i, s) in sps.iter().enumerate().take(scap) { if thorough || i % 4 == 0 { s_ser(c, s, i % 8 == 0); } }
+    // receiver variants: canonical operands of length ≤ 2 (strided), then sampled longer ones
+    let short: Vec<&Vec<F>> = vecs.iter().filter(|v| v.len() <= 2 && canon(v)).collect();
+    let total = short.len() * short.len();
+    let stride = (total / pairs_cap).max(1);
+    for k in (0..total).step_by(stride) { dd_recv(c, short[k / short.len()], short[k % short.len()]); }
+    for _ in 0..pairs_cap {
+        let a = &toy_vec(rng, el, 6); let b = &toy_vec(rng, el, 4);
+        dd_recv(c, a, b);
+        let s = &sps[rng.below(sps.len() as u64) as usize]; let u = &sps[rng.below(sps.len() as u64) as usize];
+        ds_divo(c, a, s); ss_divo(c, s, u);
+    }
+    // stored vectors with leading zeros as owned operands (model = impl only)
+    for a in vecs.iter().filter(|v| v.len() == 2 && !canon(v)).take(3) { for b in short.iter().take(4) { dd_recv(c, a, b); dd_recv(c, b, a); } }
+    // rand: every small degree, three seeds each (the leading coefficient is re-drawn while zero: 1 in p draws)
+    for d in 0..=(if thorough { 40 } else { 9 }) { for _ in 0..(if thorough { 20 } else { 4 }) { d_rand::<F>(c, d, rng.next()); } }
+    d_rand::<F>(c, 257, rng.next());
+    // sparse evaluation with huge exponents: every point of the field
+    let mut nzf = |r: &mut Rng| el[1 + r.below(p - 1) as usize];
+    let hs = huge_sparse::<F>(rng, &mut nzf, if thorough { 200 } else { 24 });
+    for (i, s) in hs.iter().enumerate() {
+        c.emit("sdeg", &shs(&s.to_vec()), guarded(|| format!("{:x}", s.degree())));
+        for x in el.iter().take(if thorough { 13 } else { 7 }) { s_evalx(c, s, x); }
+        for (j, d) in doms.iter().enumerate() { if thorough || (i + j) % 5 == 0 { s_evaldomx(c, s, d, (i + j) % 2 == 0); } }
+    }
+    // DenseOrSparsePolynomial::evaluate_over_domain, four Into forms
+    for (j, d) in doms.iter().enumerate() {
+        if !thorough && j % 3 != 0 { continue; }
+        for v in vecs.iter().filter(|v| v.len() <= 3).step_by(if thorough { 1 } else { 7 }) { dos_dom_d(c, v, d); }
+        for s in sps.iter().step_by(if thorough { 3 } else { 11 }) { dos_dom_s(c, s, d); }
+        let len = d.size() + 1 + rng.below(2 * d.size() as u64 + 3) as usize;
+        let mut v: Vec<F> = (0..len).map(|_| el[rng.below(p) as usize]).collect();
+        if v[len - 1].is_zero() { v[len - 1] = el[1]; }
+        dos_dom_d(c, &v, d);
+    }
+}
+
+fn big_extra<F: PrimeField + ark_ff::FftField>(rng: &mut Rng, c: &mut Cx, pool: &[Vec<F>], weird: &[Vec<F>], pairs: &[(Vec<F>, Vec<F>)], spool: &[SparsePolynomial<F>], doms: &[Dom<F>], xs: &[F], thorough: bool) {
+    for a in pool.iter().chain(weird.iter()) { dos_d(c, a); }
+    for s in spool { dos_s(c, s); }
+    for (i, a) in pool.iter().chain(weird.iter()).enumerate() { d_ser(c, a, i % 2 == 0); }
+    for (i, s) in spool.iter().enumerate() { s_ser(c, s, i % 2 == 0); }
+    for (a, b) in pairs.iter().step_by(if thorough { 1 } else { 3 }) { dd_recv(c, a, b); }
+    for a in pool.iter().step_by(if thorough { 1 } else { 2 }) {
+        for _ in 0..3 { let s = &spool[rng.below(spool.len() as u64) as usize]; ds_divo(c, a, s); }
+        if !a.is_empty() { ds_divo(c, a, &SparsePolynomial::from(dp(a))); }
+    }
+    for s in spool.iter() { for _ in 0..2 { let t = &spool[rng.below(spool.len() as u64) as usize]; ss_divo(c, s, t); } ss_divo(c, s, s); }
+    for d in [0usize, 1, 2, 3, 4, 7, 8, 9, 16, 31, 64, 100] { for _ in 0..(if thorough { 10 } else { 2 }) { d_rand::<F>(c, d, rng.next()); } }
+    let mut nzf = |r: &mut Rng| rand_nz::<F>(r);
+    let hs = huge_sparse::<F>(rng, &mut nzf, if thorough { 200 } else { 30 });
+    for (i, s) in hs.iter().enumerate() {
+        c.emit("sdeg", &shs(&s.to_vec()), guarded(|| format!("{:x}", s.degree())));
+        for x in xs { s_evalx(c, s, x); }
+        s_evalx(c, s, &rand_el(rng));
+        if i % 3 == 0 { s_ser(c, s, i % 2 == 0); }
+        for (j, d) in doms.iter().enumerate() { if thorough || (i + j) % 4 == 0 { s_evaldomx(c, s, d, (i + j) % 2 == 0); } }
+    }
+    for (j, d) in doms.iter().enumerate() {
+        let n = d.size();
+        for l in [0usize, 1, n / 4, n / 4 + 1, n, n + 1, 2 * n + 1, 3 * n + 2] {
+            if !thorough && j % 2 == 1 && l > 1 && l != n + 1 { continue; }
+            let a = rand_dense::<F>(rng, l); dos_dom_d(c, &a, d);
+        }
+        for a in weird.iter().take(2) { dos_dom_d(c, a, d); }
+        for s in spool.iter().take(if thorough { 10 } else { 3 }) { dos_dom_s(c, s, d); }
+    }
+}
+
 // ------------------------------------------------------------------ enumeration helpers
 /// all vectors over `el` of length ≤ maxlen
 fn all_vecs<F: Copy>(el: &[F], maxlen: usize) -> Vec<Vec<F>> {
@@ -209,7 +428,7 @@ fn toy_vec<F: PrimeField>(rng: &mut Rng, el: &[F], maxlen: usize) -> Vec<F> {
     v
 }
 
-fn toy<F: PrimeField>(rng: &mut Rng, out: &mut Out, t: &Toy) {
+fn toy<F: PrimeField + ark_ff::FftField>(rng: &mut Rng, out: &mut Out, t: &Toy) {
     let pbig: BigUint = F::MODULUS.into();
     let p = pbig.to_u64_digits().first().cloned().unwrap_or(0);
     let mut c = Cx { out, p: format!("{:x}", p) };
@@ -322,6 +541,7 @@ fn toy<F: PrimeField>(rng: &mut Rng, out: &mut Out, t: &Toy) {
             dom_interp(&mut c, &ev, d);
         }
     }
+    toy_extra(rng, &mut c, &el, &vecs, &sps, &doms, t.sample >= 10000);
 }
 
 // ------------------------------------------------------------------ structured operands over a large field
@@ -346,7 +566,7 @@ fn rand_sparse<F: PrimeField>(rng: &mut Rng, degree: usize, k: usize) -> SparseP
     sp(&raw).expect("canonical raw list")
 }
 
-fn big<F: PrimeField>(rng: &mut Rng, out: &mut Out, thorough: bool) {
+fn big<F: PrimeField + ark_ff::FftField>(rng: &mut Rng, out: &mut Out, thorough: bool) {
     let pbig: BigUint = F::MODULUS.into();
     let mut c = Cx { out, p: pbig.to_str_radix(16) };
     let reps = if thorough { 12 } else { 2 };
@@ -475,6 +695,7 @@ fn big<F: PrimeField>(rng: &mut Rng, out: &mut Out, thorough: bool) {
         let low = rand_dense::<F>(rng, (n / 2).max(1));
         let ev: Vec<F> = d.elements().map(|e| dp(&low).evaluate(&e)).collect(); dom_interp(&mut c, &ev, d);
     }
+    big_extra(rng, &mut c, &pool, &weird, &pairs, &spool, &doms, &xs, thorough);
 }
 
 fn main() {
